@@ -22,40 +22,44 @@ def kv (args : List String) (k : String) : Option String :=
     | [k', v] => if k' == k then some v else none
     | _ => none
 
+def relaySetup (rest : List String) : Relay.Cfg × Relay.Script :=
+  let o (k : String) (d : Relay.Out) : Relay.Out := ((kv rest k).bind parseOut).getD d
+  let b (k : String) (d : Bool) : Bool := match kv rest k with | some "1" => true | some "0" => false | _ => d
+  let outs (k : String) : List Relay.Out := match kv rest k with
+    | some v => if v == "-" then [] else (v.splitOn ",").filterMap parseOut
+    | none => []
+  let conn : Relay.Connect := match kv rest "connect" with | some "refused" => .refused | some "timeout" => .timeout | _ => .ok
+  let s : Relay.Script := {
+    connect := conn
+    banner := o "banner" (.code 220)
+    ehlo := o "ehlo" (.code 250)
+    helo := o "helo" (.code 250)
+    pipelining := b "pipelining" true
+    offersTls := b "offerstls" false
+    eightBit := b "eightbit" true
+    smtputf8 := b "smtputf8" true
+    starttls := o "starttls" (.code 220)
+    ehlo2 := o "ehlo2" (.code 250)
+    auth := o "auth" (.code 235)
+    mail := o "mail" (.code 250)
+    rcpts := outs "rcpts"
+    data := o "data" (.code 354)
+    eod := o "eod" (.code 250)
+    eodPer := outs "eodper"
+    rset := o "rset" (.code 250) }
+  let cfg : Relay.Cfg := {
+    lmtp := b "lmtp" false
+    tlsRequired := b "tlsrequired" false
+    credentials := b "credentials" false
+    body8bit := b "body8bit" false
+    hasEncoder := b "encoder" false
+    utf8Addr := b "utf8addr" false }
+  (cfg, s)
+
 def relayOp (args : List String) : String :=
   match args with
   | "smtp" :: rest =>
-    let o (k : String) (d : Relay.Out) : Relay.Out := ((kv rest k).bind parseOut).getD d
-    let b (k : String) (d : Bool) : Bool := match kv rest k with | some "1" => true | some "0" => false | _ => d
-    let outs (k : String) : List Relay.Out := match kv rest k with
-      | some v => if v == "-" then [] else (v.splitOn ",").filterMap parseOut
-      | none => []
-    let conn : Relay.Connect := match kv rest "connect" with | some "refused" => .refused | some "timeout" => .timeout | _ => .ok
-    let s : Relay.Script := {
-      connect := conn
-      banner := o "banner" (.code 220)
-      ehlo := o "ehlo" (.code 250)
-      helo := o "helo" (.code 250)
-      pipelining := b "pipelining" true
-      offersTls := b "offerstls" false
-      eightBit := b "eightbit" true
-      smtputf8 := b "smtputf8" true
-      starttls := o "starttls" (.code 220)
-      ehlo2 := o "ehlo2" (.code 250)
-      auth := o "auth" (.code 235)
-      mail := o "mail" (.code 250)
-      rcpts := outs "rcpts"
-      data := o "data" (.code 354)
-      eod := o "eod" (.code 250)
-      eodPer := outs "eodper"
-      rset := o "rset" (.code 250) }
-    let cfg : Relay.Cfg := {
-      lmtp := b "lmtp" false
-      tlsRequired := b "tlsrequired" false
-      credentials := b "credentials" false
-      body8bit := b "body8bit" false
-      hasEncoder := b "encoder" false
-      utf8Addr := b "utf8addr" false }
+    let (cfg, s) := relaySetup rest
     showResult (Relay.attempt cfg s)
   | ["pipe", per, outs] =>
     let l := (outs.splitOn ",").filterMap fun x => match x with
